@@ -254,12 +254,16 @@ func NewForwardedOpenIDProvider(path string, config *Config, storage Storage, op
 // to the AuthCallbackURL, the request id should be passed as the "id" parameter.
 func NewProvider(config *Config, storage Storage, issuer func(insecure bool) (IssuerFromRequest, error), opOpts ...Option) (_ *Provider, err error) {
 	keySet := &OpenIDKeySet{storage}
+	// every provider gets its own copy of the defaults,
+	// so that the WithCustom...Endpoint options do not change DefaultEndpoints
+	// (and with it the endpoints of every other provider).
+	endpoints := *DefaultEndpoints
 	o := &Provider{
 		config:            config,
 		storage:           storage,
 		accessTokenKeySet: keySet,
 		idTokenHinKeySet:  keySet,
-		endpoints:         DefaultEndpoints,
+		endpoints:         &endpoints,
 		timer:             make(<-chan time.Time),
 		corsOpts:          &defaultCORSOptions,
 		logger:            slog.Default(),
